@@ -100,24 +100,25 @@ type TapEvent struct {
 }
 
 type Net struct {
-	rng        *ssched.Rand
-	listeners  map[string]*SimListener
-	Conns      []*SimConn
-	nextID     int
-	nextPort   int
-	MinLatency time.Duration
-	Jitter     time.Duration
-	FragPermil int // probability that a Read is cut short
-	Window     int // >0: Write blocks while the peer has more than Window undelivered bytes
-	RTO        time.Duration
-	blocked    map[[2]int]bool
-	Tap        func(ev TapEvent)
+	rng            *ssched.Rand
+	listeners      map[string]*SimListener
+	Conns          []*SimConn
+	nextID         int
+	nextPort       int
+	MinLatency     time.Duration
+	Jitter         time.Duration
+	FragPermil     int // probability that a Read is cut short
+	CoalescePermil int // probability that a Read goes on into the next write that has arrived
+	Window         int // >0: Write blocks while the peer has more than Window undelivered bytes
+	RTO            time.Duration
+	blocked        map[[2]int]bool
+	Tap            func(ev TapEvent)
 	// RefuseDial, if set, decides whether a Dial fails (connect refusal / timeout faults).
 	RefuseDial func(fromNode int, addr string) bool
 	// OnDial, if set, sees both ends of every new connection (the harness plans cuts there).
 	OnDial func(dialer, acceptor *SimConn)
-	Stats      struct {
-		Dials, Refused, Resets, ShortReads, Writes, Bytes, PartitionDrops, Backpressure int
+	Stats  struct {
+		Dials, Refused, Resets, ShortReads, Coalesced, Writes, Bytes, PartitionDrops, Backpressure int
 	}
 }
 
@@ -372,10 +373,32 @@ func (c *SimConn) Read(b []byte) (int, error) {
 				n.Stats.ShortReads++
 			}
 			copy(b, s.data[:k])
-			if k == len(s.data) {
+			whole := k == len(s.data)
+			if whole {
 				c.in.segs = c.in.segs[1:]
 			} else {
 				s.data = s.data[k:]
+			}
+			// coalescing: like a socket buffer, one Read may return the bytes of several writes that
+			// have already arrived (never across the first 64 bytes, see above)
+			for whole && !first && k < len(b) && len(c.in.segs) > 0 && !c.in.segs[0].at.After(now) && n.CoalescePermil > 0 && n.rng.Intn(1000) < n.CoalescePermil {
+				s2 := &c.in.segs[0]
+				m := len(s2.data)
+				if m > len(b)-k {
+					m = len(b) - k
+				}
+				if c.MaxRead > 0 && k+m > c.MaxRead {
+					break
+				}
+				copy(b[k:], s2.data[:m])
+				k += m
+				n.Stats.Coalesced++
+				if m == len(s2.data) {
+					c.in.segs = c.in.segs[1:]
+				} else {
+					s2.data = s2.data[m:]
+					whole = false
+				}
 			}
 			c.in.size -= k
 			c.in.delivered += int64(k)
